@@ -98,7 +98,7 @@ struct Files {
     recs: Vec<D>,
 }
 
-fn make_files(seed: u64, equal_sizes: bool) -> Files {
+fn make_files(seed: u64, equal_sizes: bool, padded: bool) -> Files {
     let mut r = Rng::derive(seed, &[tag("c15-files"), equal_sizes as u64]);
     let c = Cfg::plain(3, 4);
     let shapes: Vec<Shape> = (0..N)
@@ -119,7 +119,27 @@ fn make_files(seed: u64, equal_sizes: bool) -> Files {
             assert!(recs[i] != recs[j], "harness: C15 records must be pairwise different");
         }
     }
-    Files { shp: shp.into_inner(), shx: shx.into_inner(), dbf: dbf.into_inner(), recs }
+    let (mut shp, mut shx) = (shp.into_inner(), shx.into_inner());
+    if padded {
+        // the same records with filler behind the header and between the records, reachable
+        // through the index only (entry 0 is NOT at byte 100)
+        let walk = crate::rawshp::walk(&shp);
+        let mut out = shp[..100].to_vec();
+        let mut idx = shx[..100].to_vec();
+        let mut start = 100usize;
+        for (k, rec) in walk.iter().enumerate() {
+            out.extend(std::iter::repeat(0xA5u8).take([6usize, 2, 10][k % 3]));
+            idx.extend_from_slice(&((out.len() / 2) as i32).to_be_bytes());
+            idx.extend_from_slice(&shp[start + 4..start + 8]);
+            out.extend_from_slice(&shp[start..rec.end()]);
+            start = rec.end();
+        }
+        let words = (out.len() / 2) as i32;
+        out[24..28].copy_from_slice(&words.to_be_bytes());
+        shp = out;
+        shx = idx;
+    }
+    Files { shp, shx, dbf: dbf.into_inner(), recs }
 }
 
 fn row_index(r: &dbase::Record) -> Option<usize> {
@@ -221,7 +241,8 @@ fn obs_str(o: &IterObs) -> String {
 }
 
 /// Runs one word; returns Some((failing call index, origin, what)) on the first refutation.
-fn run_word(kind: Kind, f: &Files, word: &[L], typed: Option<i32>, final_read: bool, rep: &mut Report) -> Option<(usize, Origin, String)> {
+fn run_word(kind: Kind, f: &Files, word: &[L], typed: Option<i32>, ending: u8, rep: &mut Report) -> Option<(usize, Origin, String)> {
+    let final_read = ending == 1;
     let mut rd = open(kind, f);
     let mut allowed: BTreeSet<usize> = [0].into_iter().collect();
     let mut origin = Origin::Fresh;
@@ -363,6 +384,59 @@ fn run_word(kind: Kind, f: &Files, word: &[L], typed: Option<i32>, final_read: b
                 }
             }
         }
+    } else if ending >= 2 {
+        // the history ends with an iteration consumed through a std adaptor, which reaches the
+        // iterator's own nth / count / last / size_hint instead of next() alone
+        rep.count("histories_ended_through_an_iterator_adaptor", 1);
+        let e = |x: Error| err_class(&x);
+        type Obs = Result<(Option<usize>, Option<Option<usize>>), String>;
+        enum Out {
+            Items(Vec<Obs>),
+            Count(usize),
+        }
+        macro_rules! consume {
+            ($it:expr, $conv:expr) => {{
+                let mut it = $it;
+                match ending {
+                    2 => Out::Items(it.skip(1).take(N + 3).map($conv).collect()),
+                    3 => Out::Items(it.nth(1).into_iter().map($conv).collect()),
+                    4 => Out::Count(it.count()),
+                    _ => Out::Items(it.last().into_iter().map($conv).collect()),
+                }
+            }};
+        }
+        let recs = &f.recs;
+        let out = match &mut rd {
+            AnyReader::Shape(r) => match typed {
+                None => consume!(r.iter_shapes(), |x: Result<Shape, Error>| x.map(|s| (which(&s.d(), recs), None)).map_err(e)),
+                Some(t) => for_type!(t, T => consume!(r.iter_shapes_as::<T>(), |x: Result<T, Error>| x.map(|s| (which(&s.d(), recs), None)).map_err(e))),
+            },
+            AnyReader::Complete(r) => match typed {
+                None => consume!(r.iter_shapes_and_records(), |x: Result<(Shape, dbase::Record), Error>| x.map(|(s, row)| (which(&s.d(), recs), Some(row_index(&row)))).map_err(e)),
+                Some(t) => for_type!(t, T => consume!(r.iter_shapes_and_records_as::<T, dbase::Record>(), |x: Result<(T, dbase::Record), Error>| x.map(|(s, row)| (which(&s.d(), recs), Some(row_index(&row)))).map_err(e))),
+            },
+        };
+        let name = ["", "", "iter.skip(1)", "iter.nth(1)", "iter.count()", "iter.last()"][ending as usize];
+        let fits = |s: usize| -> bool {
+            let s = s.min(N);
+            let expect: Vec<usize> = match ending {
+                2 => (s + 1..N).collect(),
+                3 => if s + 1 < N { vec![s + 1] } else { vec![] },
+                _ => if s < N { vec![N - 1] } else { vec![] },
+            };
+            match &out {
+                Out::Count(c) => *c == N - s,
+                Out::Items(v) => v.len() == expect.len() && v.iter().zip(&expect).all(|(g, w)| matches!(g, Ok((Some(k), row)) if k == w && row.map(|r| r == Some(*w)).unwrap_or(true))),
+            }
+        };
+        if !allowed.iter().any(|&s| fits(s)) {
+            let seen = match &out {
+                Out::Count(c) => format!("{}", c),
+                Out::Items(v) => format!("{:?}", v),
+            };
+            let allowed_s: Vec<String> = allowed.iter().map(|s| format!("records[{}..]", s)).collect();
+            return Some((word.len(), origin, format!("{} gave {}; an iteration the property allows starts at {}", name, seen, allowed_s.join(" or "))));
+        }
     }
     None
 }
@@ -414,24 +488,26 @@ fn words(alpha: &[L], max_len: usize) -> Vec<Vec<L>> {
 
 pub fn run(ctx: &Ctx) -> Report {
     // (reader kind, equal record sizes, word length bound, typed API variants)
-    let configs: Vec<(Kind, bool, usize, bool)> = if cfg!(miri) {
-        vec![(Kind::Index, false, 2, false), (Kind::NoIndex, false, 3, true), (Kind::Complete, false, 2, false), (Kind::Index, true, 2, true)]
+    let configs: Vec<(Kind, bool, usize, bool, bool)> = if cfg!(miri) {
+        vec![(Kind::Index, false, 2, false, false), (Kind::NoIndex, false, 3, true, false), (Kind::Complete, false, 2, false, false), (Kind::Index, true, 2, true, true)]
     } else {
         let (li, ln, lc) = (ctx.pick(4, 6), ctx.pick(6, 10), ctx.pick(4, 6));
         let mut v = vec![];
         for typed in [false, true] {
             // the typed variants (`*_as::<T>`) run one letter shorter in the thorough tier
             let cut = if typed && ctx.thorough { 1 } else { 0 };
-            v.extend_from_slice(&[(Kind::Index, false, li - cut, typed), (Kind::Index, true, li - cut, typed), (Kind::NoIndex, false, ln - cut, typed), (Kind::NoIndex, true, ln - cut, typed), (Kind::Complete, false, lc - cut, typed), (Kind::Complete, true, lc - cut, typed)]);
-            v.extend_from_slice(&[(Kind::NoIndexFailingCalls, false, lc - cut, typed), (Kind::CompleteNoIndex, false, lc - cut, typed), (Kind::CompleteNoIndex, true, lc - cut, typed)]);
+            v.extend_from_slice(&[(Kind::Index, false, li - cut, typed, false), (Kind::Index, true, li - cut, typed, false), (Kind::NoIndex, false, ln - cut, typed, false), (Kind::NoIndex, true, ln - cut, typed, false), (Kind::Complete, false, lc - cut, typed, false), (Kind::Complete, true, lc - cut, typed, false)]);
+            v.extend_from_slice(&[(Kind::NoIndexFailingCalls, false, lc - cut, typed, false), (Kind::CompleteNoIndex, false, lc - cut, typed, false), (Kind::CompleteNoIndex, true, lc - cut, typed, false)]);
+            // a layout with filler behind the header and between the records (index needed), one letter shorter
+            v.extend_from_slice(&[(Kind::Index, false, li - cut - 1, typed, true), (Kind::Complete, true, lc - cut - 1, typed, true)]);
         }
         v
     };
     let mut total = Report::default();
-    for (ci, (kind, equal, max_len, typed_api)) in configs.iter().enumerate() {
+    for (ci, (kind, equal, max_len, typed_api, padded)) in configs.iter().enumerate() {
         // the files hold Point records (equal sizes) or Polyline records (different sizes)
         let typed: Option<i32> = if *typed_api { Some(if *equal { 1 } else { 3 }) } else { None };
-        let f = make_files(ctx.seed, *equal);
+        let f = make_files(ctx.seed, *equal, *padded);
         let ws = words(&alphabet(*kind), *max_len);
         let kname = match kind {
             Kind::Index => "index",
@@ -451,12 +527,19 @@ pub fn run(ctx: &Ctx) -> Report {
                     continue;
                 }
                 rep.eval();
-                rep.class(&format!("{} reader, {} record sizes, {} API, words <= {}", kname, if *equal { "equal" } else { "different" }, if *typed_api { "typed (*_as::<T>)" } else { "generic" }, max_len));
+                rep.class(&format!("{} reader, {} record sizes{}, {} API, words <= {}", kname, if *equal { "equal" } else { "different" }, if *padded { ", padded layout" } else { "" }, if *typed_api { "typed (*_as::<T>)" } else { "generic" }, max_len));
                 rep.nontrivial(&case);
                 // every history runs twice: as it is, and ended by read() / read_as()
-                for final_read in [false, true] {
-                let case = if final_read { format!("{}:read", case) } else { case.clone() };
-                match panicmon::catch(|| run_word(*kind, &f, w, typed, final_read, rep)) {
+                // every history runs as it is, ended by read() / read_as(), and ended by one iterator
+                // adaptor (skip / nth / count / last, rotating with the word)
+                for ending in [0u8, 1, 2 + (wi % 4) as u8] {
+                let final_read = ending == 1;
+                let case = match ending {
+                    0 => case.clone(),
+                    1 => format!("{}:read", case),
+                    k => format!("{}:adaptor{}", case, k),
+                };
+                match panicmon::catch(|| run_word(*kind, &f, w, typed, ending, rep)) {
                     Err(p) => rep.violation(&format!("{}/panic", kname), &case, J::obj(vec![("history", J::s(word_str(w))), ("panic", J::s(p.class()))])),
                     Ok(None) => {}
                     Ok(Some((idx, origin, what))) => {
@@ -465,6 +548,7 @@ pub fn run(ctx: &Ctx) -> Report {
                             Some(L::Nth(_)) => "nth",
                             Some(L::Seek(_)) => "seek",
                             Some(L::Count) => "count",
+                            None if ending >= 2 => "adaptor",
                             None => "read-all",
                         };
                         rep.violation(
@@ -473,7 +557,7 @@ pub fn run(ctx: &Ctx) -> Report {
                             J::obj(vec![
                                 ("reader", J::s(kname)),
                                 ("record_sizes", J::s(if *equal { "equal" } else { "pairwise different" })),
-                                ("history", J::s(format!("{}{}", word_str(w), if final_read { "; read-all" } else { "" }))),
+                                ("history", J::s(format!("{}{}", word_str(w), ["", "; read-all", "; iter.skip(1)", "; iter.nth(1)", "; iter.count()", "; iter.last()"][ending as usize]))),
                                 ("failing_call_index", J::UInt(idx as u64)),
                                 ("what", J::s(what)),
                             ]),
